@@ -56,6 +56,14 @@ mod c20 {
         check_ascii::<5>();
     }
 
+    /// the cheap twin used by the quick tier when Verus cannot decide: names of <= 2 ASCII bytes
+    #[kani::proof]
+    #[kani::unwind(4)]
+    #[kani::stub(std::rt::thread_cleanup, noop)]
+    fn c20_name_ascii_len2() {
+        check_ascii::<2>();
+    }
+
     /// a name containing a non-ASCII character (2-byte UTF-8 sequence) anywhere is rejected
     #[kani::proof]
     #[kani::unwind(6)]
